@@ -317,7 +317,7 @@ func checkGuardedBy(r *Report, rule string, fns []*ssa.Function, specs []guardSp
 			root = lock[:i]
 		}
 		for _, p := range f.Params {
-			if p.Name() == root {
+			if pname(p) == root {
 				return true
 			}
 		}
